@@ -124,3 +124,26 @@ Theorem C10_dense_inherited_reset_is_no_reset :
     option_map snd (DenseOnlineMon.mon_run AR pk p d post).
 Proof. exact @DenseOnlineResetCorrect.inherited_reset_is_no_reset. Qed.
 Print Assumptions C10_dense_inherited_reset_is_no_reset.
+
+(* ---- the reset visitor of the code, re-generated from the Python text on every build (OnlineVisitorGen.v): after any h updates and
+   the generated reset(), the generated monitor returns on new data what a freshly built generated monitor returns (both the verdicts
+   of the hand monitor OnlineNamed.nmon_run from ndict_init, to which C10_reset applies through C02_online_named_is_online) ---- *)
+From Coq Require Import String.
+From RV Require Import Units NodeName OnlineNamed OnlineNamedCorrect OnlineVisitorGen OnlineVisitorGenCorrect.
+Theorem C10_generated_reset :
+  forall (VS : Val) (AR : Arith VS) (vidx : string -> string -> nat) (cval : string -> V) (bnd : bound -> bound -> nat * nat)
+         (tut : bound -> bound -> option (Z * Z)) (F : list node) (w w' : trace)
+         (vobjs vobjs' : nat -> string -> string -> option V) (h len : nat),
+    F <> [] ->
+    (forall x, In x F -> nwf x = true /\ past_only (sem vidx cval bnd x) = true /\ wf_bounds (sem vidx cval bnd x) = true) ->
+    (forall a, DN F a -> tut_ok bnd tut a) ->
+    (forall k v f, vobjs k v f = Some (sig w (vidx v f) k)) ->
+    (forall k v f, vobjs' k v f = Some (sig w' (vidx v f) k)) ->
+    exists gd0 gd1 outs1 gd2 gd3 gd3',
+      gen_set_ast tut F = Some gd0 /\
+      gen_run AR cval vobjs F gd0 0 h = Some (gd1, outs1) /\
+      gen_reset_forest F gd1 = Some gd2 /\
+      gen_run AR cval vobjs' F gd2 0 len = Some (gd3, snd (nmon_run AR pk0 vidx cval bnd F (ndict_init vidx cval bnd F) w' 0 len)) /\
+      gen_run AR cval vobjs' F gd0 0 len = Some (gd3', snd (nmon_run AR pk0 vidx cval bnd F (ndict_init vidx cval bnd F) w' 0 len)).
+Proof. exact @gen_reset_like_fresh. Qed.
+Print Assumptions C10_generated_reset.
